@@ -247,7 +247,7 @@ class C12(Check):
         of = self.of
         if case.get("portnos"):
             node = self.swnet.SwitchNode(dpid=1, ports=0, max_buffers=case.get("bufs", 4096), miss_send_len=128)
-            for no in case["portnos"]: node.sw.add_port(node.sw.generate_port(no))
+            for no in case["portnos"]: node.sw.add_port(node.sw.generate_port(no, name="p%d" % no))
             node.drain()
         else:
             node = self.swnet.SwitchNode(dpid=1, ports=case.get("nports", NPORTS), max_buffers=case.get("bufs", 4096), miss_send_len=128)
@@ -490,7 +490,7 @@ class C12(Check):
                         if st["free"] > 0:
                             st["free"] -= 1; st["bufstore"].append((full, o["in_port"], rxmiss))
                         o["data"] = (full[:limit] if (o["buffered"] and limit is not None) else full).hex(); o["total"] = len(full)
-                    if o["k"] == "frame":
+                    if o["k"] == "frame" and batch:          # (inside a batch the counters a read-out must show come from the expected frames)
                         t = st["etx"].setdefault(o["port"], [0, 0]); t[0] += 1; t[1] += len(o["data"]) // 2
                 exp += e
                 if info: infos.append(info)
@@ -498,6 +498,10 @@ class C12(Check):
                     want = dict((n, c) for n, c, s in cfg).get(sub["port"]); have = dict((n, c) for n, c, s in real_after).get(sub["port"])
                     if want != have:
                         return "op %d: port_mod config %#x mask %#x on %#x gives %#x, expected %#x" % (i, sub["config"], sub["mask"], dict((n, c) for n, c, s in before)[sub["port"]], have, want)
+            if not batch:                                      # what later read-outs must show: the frames that really left
+                for o in got:
+                    if o["k"] == "frame":
+                        t = st["etx"].setdefault(o["port"], [0, 0]); t[0] += 1; t[1] += len(o["data"]) // 2
             if not judged: continue
             if sorted(cfg) != sorted(real_after) and op["op"] in ("portmod", "batch", "link"):
                 return "op %d: port_mod/link sequence leaves ports (no, config, state) %s, expected %s" % (i, sorted(real_after), sorted(cfg))
@@ -520,6 +524,7 @@ class C12(Check):
                     elif L.end < len(fr) and not cls: cls = " [ethernet-trailer]"
             for j, (g, e) in enumerate(zip(got, exp)):
                 if g == e: continue
+                if g["k"] == "stats" and batch and not canon: continue      # frame lengths of a non-canonical frame are not predicted
                 if g["k"] in ("stats", "features"):
                     return "op %d: %s reply %s, expected %s" % (i, g["k"], json.dumps(g["ports"])[:300], json.dumps(e["ports"])[:300])
                 if g["k"] in ("error", "port_status"):
@@ -570,6 +575,7 @@ class C12(Check):
         ks = kinds(acts)
         if "reply" in failure and "expected" in failure: return "readout:" + failure.split(": ", 1)[1].split(" ")[0] + "-reply-stale-or-wrong"
         if "port_mod/link sequence" in failure: return "port_mod:sequence-leaves-wrong-config"
+        if ": message {" in failure: return "messages:unexpected-error-or-port-status"
         if "raised" in failure:
             exc = failure.rsplit(" ", 1)[-1]
             if exc == "AttributeError" and "enqueue" in ks: return "action:enqueue:AttributeError"
